@@ -1,7 +1,117 @@
 import Cherab.Drv.Proto
-open Cherab.Drv
+import Cherab.Model.BeamEmission
+open Cherab.Drv Cherab.BeamEmission
 
-/-- C05 driver: not yet implemented (echo) -/
+/-!
+C05 driver.  Lines:
+
+* `const e amu recip4pi`                                  → `ok` (sets the constants used by the following lines)
+* `cx E dx dy dz nb Bx By Bz recv nsp {Z n T vx vy vz}^nsp nmeta {c0..c5}^nmeta {{null a0 a1 a2 a3}^nsp}^(nmeta-1)`
+     → `line r E T n Zeff B k_2 … k_nmeta` | `skip` | `zerodiv` | `valueerror` | `indexerror`
+* `bes E dx dy dz nb nsp {Z n T vx vy vz}^nsp {null a0 a1 a2 a3}^nsp`
+     → `line r {E_i ne_i T_i}^nsp` | `skip` | `zerodiv`
+* `zeff nsp {Z n}^nsp` → `ok zeff iondensity` | `valueerror iondensity`
+
+The mock coefficients are the affine functions the Python harness uses, evaluated in the same order.
+-/
+
+def cxCoeff (c : List Float) (e t n z b : Float) : Float :=
+  match c with
+  | [c0, c1, c2, c3, c4, c5] => c0 + c1 * e + c2 * t + c3 * n + c4 * z + c5 * b
+  | _ => 0.0 / 0.0
+
+def popCoeff (c : List String) (e n t : Float) : Float :=
+  match c with
+  | [null, a0, a1, a2, a3] => if null == "1" then 0.0 else pF a0 + pF a1 * e + pF a2 * n + pF a3 * t
+  | _ => 0.0 / 0.0
+
+def takeSpecies : Nat → List String → List (Species Float) × List String
+  | 0, ts => ([], ts)
+  | k + 1, z :: n :: t :: vx :: vy :: vz :: rest =>
+      let (l, r) := takeSpecies k rest
+      (⟨pN z, pF n, pF t, ⟨pF vx, pF vy, pF vz⟩⟩ :: l, r)
+  | _, _ => ([], [])
+
+def takeGroups (size : Nat) : Nat → List String → List (List String) × List String
+  | 0, ts => ([], ts)
+  | k + 1, ts =>
+      let (l, r) := takeGroups size k (ts.drop size)
+      (ts.take size :: l, r)
+
+def runCX (c : Consts Float) (ts : List String) : String :=
+  match ts with
+  | e :: dx :: dy :: dz :: nb :: bx :: by' :: bz :: recv :: nsp :: rest =>
+    let nsp := pN nsp
+    let (sp, rest) := takeSpecies nsp rest
+    match rest with
+    | nmeta :: rest =>
+      let nmeta := pN nmeta
+      let (cxs, rest) := takeGroups 6 nmeta rest
+      let (pops, _) := takeGroups (5 * nsp) (nmeta - 1) rest
+      let cxf := cxs.map fun g => cxCoeff (g.map pF)
+      match cxf with
+      | [] => "bad-op"
+      | ground :: exf =>
+        let popf : List (List (Float → Float → Float → Float)) :=
+          pops.map fun g => (takeGroups 5 nsp g).1.map popCoeff
+        let excited := exf.zip popf
+        let scene : CXScene Float := ⟨pF e, ⟨pF dx, pF dy, pF dz⟩, pF nb, sp, pN recv, ⟨pF bx, pF by', pF bz⟩⟩
+        match cxEmission c Float.sqrt scene ground excited with
+        | .skip => "skip"
+        | .zeroDivision => "zerodiv"
+        | .valueError => "valueerror"
+        | .indexError => "indexerror"
+        | .line r =>
+          -- recompute the observable intermediates with the same model functions
+          match sp[pN recv]?, beamVelocity c Float.sqrt scene.beamEnergy scene.beamDirection with
+          | some rs, some vd =>
+            let eInt := interactionEnergy c Float.sqrt vd rs.velocity
+            match cxArgs Float.sqrt sp scene.bField eInt rs.temperature with
+            | some a =>
+              let ks := excited.map fun ex => beamPopulation c Float.sqrt vd (sp.zip ex.2)
+              "line " ++ fFs ([r, a.energy, a.temperature, a.density, a.zEffective, a.bField] ++ ks)
+            | none => "bad-state"
+          | _, _ => "bad-state"
+    | _ => "bad-op"
+  | _ => "bad-op"
+
+def runBES (c : Consts Float) (ts : List String) : String :=
+  match ts with
+  | e :: dx :: dy :: dz :: nb :: nsp :: rest =>
+    let nsp := pN nsp
+    let (sp, rest) := takeSpecies nsp rest
+    let rates := (takeGroups 5 nsp rest).1.map popCoeff
+    let scene : BESScene Float := ⟨pF e, ⟨pF dx, pF dy, pF dz⟩, pF nb, sp⟩
+    match besEmission c Float.sqrt scene rates with
+    | .line r =>
+      match beamVelocity c Float.sqrt scene.beamEnergy scene.beamDirection with
+      | some vb =>
+        let dsum := densitySum sp
+        let args := sp.flatMap fun s => [interactionEnergy c Float.sqrt vb s.velocity, equivNe dsum s, s.temperature]
+        "line " ++ fFs (r :: args)
+      | none => "bad-state"
+    | .skip => "skip"
+    | .zeroDivision => "zerodiv"
+    | .valueError => "valueerror"
+    | .indexError => "indexerror"
+  | _ => "bad-op"
+
+def takeZN : Nat → List String → List (Species Float)
+  | k + 1, z :: n :: rest => ⟨pN z, pF n, 0.0, ⟨0.0, 0.0, 0.0⟩⟩ :: takeZN k rest
+  | _, _ => []
+
+def step (c : Consts Float) (ts : List String) : Consts Float × String :=
+  match ts with
+  | ["const", e, amu, r] => (⟨pF e, pF amu, pF r⟩, "ok")
+  | "cx" :: rest => (c, runCX c rest)
+  | "bes" :: rest => (c, runBES c rest)
+  | "zeff" :: nsp :: rest =>
+      let sp := takeZN (pN nsp) rest
+      match zEffective sp with
+      | some z => (c, "ok " ++ fFs [z, ionDensity sp])
+      | none => (c, "valueerror " ++ fF (ionDensity sp))
+  | _ => (c, "bad-op")
+
 def main : IO UInt32 := do
-  loop (stateless fun ts => " ".intercalate ts) (← IO.getStdin) (← IO.getStdout) ()
+  loop step (← IO.getStdin) (← IO.getStdout) (⟨1.0, 1.0, 1.0⟩ : Consts Float)
   return 0
